@@ -1,18 +1,34 @@
 // C17: merge strategies – the structural part only.
 //
-// The input/output relation of the in-place merge loops (order, idempotence,
-// exact coverage) is value-level and depends on slice aliasing; it is not
-// decided. What is decided is the shape every coverage-preserving merge step
-// must have: when two neighbours are merged the survivor takes the left
-// neighbour's Begin and the larger of the two Ends, exactly the left element is
-// spliced out, and nothing else writes to the chunks; Squash returns the first
-// Begin and a running maximum of the Ends; Identity returns its argument; every
-// caller hands the strategies a list sorted by begin offset (SORTED-PRE, C04).
+// The input/output relation of the merge loops (order, idempotence, exact
+// coverage) is value-level and depends on slice aliasing; it is not decided.
+// What is decided is the shape every coverage-preserving merge step must have.
+// Two ways of writing the loop are understood, both through *role keys* – values
+// rendered in terms of the list L, the read cursor i and (if there is one) the
+// write index n, with local copies of elements resolved to the element they were
+// copied from, so that no variable name matters:
+//
+//	splice form      for i := 1; i < len(L); i++ { left := L[i-1]; right := &L[i]
+//	                   if T(left.End, right.Begin) { right.Begin = left.Begin
+//	                     if left.End > right.End { right.End = left.End }
+//	                     L = append(L[:i-1], L[i:]...); i-- } }
+//	accumulate form  n := 0; for i := 1; i < len(L); i++ {
+//	                   if T(L[n].End, L[i].Begin) {
+//	                     if L[i].End > L[n].End { L[n].End = L[i].End }; continue }
+//	                   n++; L[n] = L[i] }; return L[:n+1]
+//
+// In both, the test looks at the End of the *accumulated* chunk (L[i-1] after the
+// splice and step back; L[n]) and the Begin of the current one; the survivor has
+// the accumulated Begin and the larger End; nothing else is written. Squash
+// returns the first Begin and a running maximum of the Ends; Identity returns
+// its argument; every caller hands the strategies a list sorted by begin offset
+// (SORTED-PRE, C04).
 package main
 
 import (
 	"fmt"
 	"go/token"
+	"go/types"
 	"strings"
 
 	"golang.org/x/tools/go/ssa"
@@ -28,41 +44,312 @@ func mergeLoopFuncs(c *Ctx) map[string]*ssa.Function {
 	return out
 }
 
+// mergeRoles renders values of a merge loop in role terms.
+type mergeRoles struct {
+	fn   *ssa.Function
+	idx  *ssa.Phi // read cursor: the phi compared with len(L)
+	w    *ssa.Phi // write index (accumulate form)
+	memo map[ssa.Value]bool
+}
+
+// isList: v is the chunk list – the first parameter, or what becomes of it
+// through phis and splicing appends (greatest fixpoint over the loop's phis).
+func (m *mergeRoles) isList(v ssa.Value) bool {
+	if m.memo == nil {
+		m.memo = map[ssa.Value]bool{}
+		if len(m.fn.Params) > 0 {
+			m.memo[m.fn.Params[0]] = true
+		}
+		var cands []ssa.Value
+		allInstrs(m.fn, func(ins ssa.Instruction) {
+			switch x := ins.(type) {
+			case *ssa.Phi:
+				cands = append(cands, x)
+				m.memo[x] = true
+			case *ssa.Call:
+				if _, ok := isBuiltinCall(x, "append"); ok {
+					cands = append(cands, x)
+					m.memo[x] = true
+				}
+			}
+		})
+		for changed := true; changed; {
+			changed = false
+			for _, cv := range cands {
+				if !m.memo[cv] {
+					continue
+				}
+				ok := true
+				switch x := cv.(type) {
+				case *ssa.Phi:
+					n := 0
+					for _, e := range x.Edges {
+						if e == ssa.Value(x) {
+							continue
+						}
+						n++
+						if !m.memo[e] {
+							ok = false
+						}
+					}
+					ok = ok && n > 0
+				case *ssa.Call:
+					cc, _ := isBuiltinCall(x, "append")
+					ok = false
+					if cc != nil && len(cc.Args) == 2 {
+						a, ok1 := cc.Args[0].(*ssa.Slice)
+						b, ok2 := cc.Args[1].(*ssa.Slice)
+						ok = ok1 && ok2 && m.memo[a.X] && m.memo[b.X]
+					}
+				}
+				if !ok {
+					m.memo[cv] = false
+					changed = true
+				}
+			}
+		}
+	}
+	return m.memo[v]
+}
+
+func (m *mergeRoles) key(v ssa.Value) string { return m.keyD(v, 0) }
+
+func (m *mergeRoles) keyD(v ssa.Value, d int) string {
+	if v == nil {
+		return ""
+	}
+	if d > 16 {
+		return "…"
+	}
+	if m.isList(v) {
+		return "L"
+	}
+	switch x := v.(type) {
+	case *ssa.Const:
+		if x.Value == nil {
+			return "nil"
+		}
+		return x.Value.ExactString()
+	case *ssa.Phi:
+		if x == m.idx {
+			return "i"
+		}
+		if x == m.w {
+			return "n"
+		}
+		return fmt.Sprintf("φ%d.%s", x.Block().Index, x.Name())
+	case *ssa.Parameter:
+		return "$" + x.Name()
+	case *ssa.FreeVar:
+		return "$" + x.Name()
+	case *ssa.Convert:
+		return m.keyD(x.X, d+1)
+	case *ssa.ChangeType:
+		return m.keyD(x.X, d+1)
+	case *ssa.BinOp:
+		return "(" + m.keyD(x.X, d+1) + x.Op.String() + m.keyD(x.Y, d+1) + ")"
+	case *ssa.UnOp:
+		if x.Op == token.MUL {
+			return m.addr(x.X, d+1)
+		}
+		return x.Op.String() + m.keyD(x.X, d+1)
+	case *ssa.Field:
+		return m.keyD(x.X, d+1) + "." + fieldVarOfField(x).Name()
+	case *ssa.FieldAddr, *ssa.IndexAddr, *ssa.Alloc:
+		return "&" + m.addr(v, d+1)
+	case *ssa.Slice:
+		lo, hi := "", ""
+		if x.Low != nil {
+			lo = m.keyD(x.Low, d+1)
+		}
+		if x.High != nil {
+			hi = m.keyD(x.High, d+1)
+		}
+		return m.keyD(x.X, d+1) + "[" + lo + ":" + hi + "]"
+	case *ssa.Call:
+		if cc, ok := isBuiltinCall(x, "append"); ok {
+			var as []string
+			for _, a := range cc.Args {
+				as = append(as, m.keyD(a, d+1))
+			}
+			return "append(" + strings.Join(as, ",") + ")"
+		}
+		if cc, ok := isBuiltinCall(x, "len"); ok {
+			return "len(" + m.keyD(cc.Args[0], d+1) + ")"
+		}
+		if g := staticCallee(&x.Call); g != nil && isVOffsetFunc(g) {
+			return "v(" + m.keyD(x.Call.Args[0], d+1) + ")"
+		}
+		return symKey(x)
+	}
+	return symKey(v)
+}
+
+// addr: the location an address denotes. A local struct variable that holds a
+// copy of a list element stands for that element.
+func (m *mergeRoles) addr(a ssa.Value, d int) string {
+	switch x := a.(type) {
+	case *ssa.FieldAddr:
+		return m.addr(x.X, d+1) + "." + fieldVarOfAddr(x).Name()
+	case *ssa.IndexAddr:
+		return m.keyD(x.X, d+1) + "[" + m.keyD(x.Index, d+1) + "]"
+	case *ssa.Alloc:
+		if sv := singleStore(x); sv != nil {
+			if u, ok := sv.(*ssa.UnOp); ok && u.Op == token.MUL {
+				return m.addr(u.X, d+1)
+			}
+			return m.keyD(sv, d+1)
+		}
+		return "local:" + x.Comment
+	}
+	return "*" + m.keyD(a, d+1)
+}
+
+// isVOffsetFunc: a module function from a bgzf.Offset to int64 (BIT-VOFFSET of
+// C13 checks that it is File<<16|Block).
+func isVOffsetFunc(g *ssa.Function) bool {
+	sig := g.Signature
+	if sig.Params().Len() != 1 || sig.Results().Len() != 1 {
+		return false
+	}
+	n, ok := sig.Params().At(0).Type().(*types.Named)
+	if !ok || n.Obj().Name() != "Offset" {
+		return false
+	}
+	b, ok := sig.Results().At(0).Type().Underlying().(*types.Basic)
+	return ok && b.Kind() == types.Int64
+}
+
+func newMergeRoles(fn *ssa.Function) *mergeRoles {
+	m := &mergeRoles{fn: fn}
+	for _, b := range fn.Blocks {
+		iff := ifOf(b)
+		if iff == nil {
+			continue
+		}
+		bo, ok := iff.Cond.(*ssa.BinOp)
+		if !ok || bo.Op != token.LSS {
+			continue
+		}
+		p, ok := bo.X.(*ssa.Phi)
+		if !ok {
+			continue
+		}
+		if call, ok := bo.Y.(*ssa.Call); ok {
+			if cc, ok := isBuiltinCall(call, "len"); ok && m.isList(cc.Args[0]) {
+				m.idx = p
+			}
+		}
+	}
+	// write index: the phi n of a returned L[:n+1]
+	allInstrs(fn, func(ins ssa.Instruction) {
+		ret, ok := ins.(*ssa.Return)
+		if !ok || len(ret.Results) != 1 {
+			return
+		}
+		sl, ok := ret.Results[0].(*ssa.Slice)
+		if !ok || !m.isList(sl.X) || sl.High == nil {
+			return
+		}
+		if bo, ok := sl.High.(*ssa.BinOp); ok && bo.Op == token.ADD {
+			if p, ok := bo.X.(*ssa.Phi); ok && p != m.idx {
+				if k, isK := constInt(bo.Y); isK && k == 1 {
+					m.w = p
+				}
+			}
+		}
+	})
+	return m
+}
+
+type roleStore struct {
+	addr, val string
+	ins       *ssa.Store
+}
+
+// guardedBy: the block of `at` is dominated by the edge of a comparison that
+// establishes  big > small  (or ≥ when orEq), given as role keys.
+func (m *mergeRoles) guardedBy(at *ssa.BasicBlock, big, small func(string) bool, orEq bool) bool {
+	fn := m.fn
+	for _, b := range fn.Blocks {
+		iff := ifOf(b)
+		if iff == nil {
+			continue
+		}
+		bo, ok := iff.Cond.(*ssa.BinOp)
+		if !ok {
+			continue
+		}
+		kx, ky := m.key(bo.X), m.key(bo.Y)
+		yes := -1
+		switch {
+		case (bo.Op == token.GTR || (orEq && bo.Op == token.GEQ)) && big(kx) && small(ky):
+			yes = 0
+		case (bo.Op == token.LSS || (orEq && bo.Op == token.LEQ)) && small(kx) && big(ky):
+			yes = 0
+		case (bo.Op == token.LEQ || (orEq && bo.Op == token.LSS)) && big(kx) && small(ky):
+			yes = 1
+		case (bo.Op == token.GEQ || (orEq && bo.Op == token.GTR)) && small(kx) && big(ky):
+			yes = 1
+		}
+		if yes >= 0 && b.Succs[0] != b.Succs[1] && dominatedByEdge(fn, b, yes, at) {
+			return true
+		}
+	}
+	return false
+}
+
 func ruleChunkMergeStep(c *Ctx, r *Rep, tier string) {
 	rule := "MERGE-STEP"
 	for name, fn := range mergeLoopFuncs(c) {
-		effs := effectsOf(fn)
 		key := "bgzf/index." + name
-		var beginSt, endSt []eff
-		var other []string
-		for _, e := range effs {
-			if e.Kind != "store" {
-				continue
+		m := newMergeRoles(fn)
+		if m.idx == nil {
+			for _, ob := range []string{"#begin", "#end-max", "#splice", "#test"} {
+				r.Instance(rule, 1)
+				r.Fail(rule, key+ob, c.Pos(fn.Pos()), "no loop `for i < len(list)` over the chunk list found: the merge loop is written in a way this rule does not understand (undecided)")
 			}
-			switch {
-			case strings.HasSuffix(e.Addr, "].Begin"):
-				beginSt = append(beginSt, e)
-			case strings.HasSuffix(e.Addr, "].End"):
-				endSt = append(endSt, e)
-			case strings.Contains(e.Addr, "chunks[") && e.Addr != e.Val:
-				other = append(other, e.String())
+			continue
+		}
+		var stores []roleStore
+		allInstrs(fn, func(ins ssa.Instruction) {
+			if st, ok := ins.(*ssa.Store); ok {
+				a := m.addr(st.Addr, 0)
+				// a store into the list itself, not into a local copy of an element
+				root := st.Addr
+				for {
+					if fa, ok := root.(*ssa.FieldAddr); ok {
+						root = fa.X
+						continue
+					}
+					break
+				}
+				ia, isElem := root.(*ssa.IndexAddr)
+				if isElem && m.isList(ia.X) && strings.HasPrefix(a, "L[") {
+					stores = append(stores, roleStore{a, m.key(st.Val), st})
+				}
 			}
+		})
+		var splice *ssa.Call
+		allInstrs(fn, func(ins ssa.Instruction) {
+			if call, ok := ins.(*ssa.Call); ok {
+				if _, isApp := isBuiltinCall(call, "append"); isApp && m.isList(call) {
+					splice = call
+				}
+			}
+		})
+		// the accumulated element and the current one, per form
+		acc, cur := "L[(i-1)]", "L[i]"
+		form := "splice"
+		if splice == nil && m.w != nil {
+			acc, form = "L[n]", "accumulate"
 		}
-		// (a) Begin of the survivor = Begin of the left neighbour
-		r.Instance(rule, 1)
-		why := ""
-		if len(beginSt) != 1 || beginSt[0].Val != "leftChunk.Begin" || !strings.HasSuffix(beginSt[0].Addr, "[phi:c].Begin") {
-			why = fmt.Sprintf("assignments of a chunk's Begin: %v (want exactly: the right chunk takes the left chunk's Begin)", beginSt)
-		}
-		r.Check(why == "", rule, key+"#begin", c.Pos(fn.Pos()), "merged.Begin = left.Begin", why+": positions at the start of the left chunk are lost (or another chunk is altered)")
-		// (b) End of the survivor = the larger End
-		r.Instance(rule, 1)
-		why = ""
-		if len(endSt) != 1 || endSt[0].Val != "leftChunk.End" || !strings.HasSuffix(endSt[0].Addr, "[phi:c].End") {
-			why = fmt.Sprintf("assignments of a chunk's End: %v (want exactly: the right chunk takes the left chunk's End when that is larger)", endSt)
-		} else {
-			st := endSt[0].Ins
-			guarded := false
+		// (t) the merge test
+		var testBlk *ssa.BasicBlock
+		mergeEdge := -1
+		{
+			r.Instance(rule, 1)
+			why := "no comparison of the accumulated chunk's End (" + acc + ".End) with the current chunk's Begin (" + cur + ".Begin) found"
 			for _, b := range fn.Blocks {
 				iff := ifOf(b)
 				if iff == nil {
@@ -72,94 +359,223 @@ func ruleChunkMergeStep(c *Ctx, r *Rep, tier string) {
 				if !ok {
 					continue
 				}
-				kx, ky := symKey(bo.X), symKey(bo.Y)
-				left := func(k string) bool { return k == "vOffset(leftChunk.End)" }
-				right := func(k string) bool { return strings.HasPrefix(k, "vOffset(") && strings.HasSuffix(k, "[phi:c].End)") }
-				yes := -1
+				kx, ky := m.key(bo.X), m.key(bo.Y)
+				if !strings.Contains(kx+ky, ".Begin") {
+					continue
+				}
+				isAcc := func(k string) bool {
+					return strings.Contains(k, acc+".End") && !strings.Contains(k, cur+".") && strings.Count(k, "L[") == 1
+				}
+				isCur := func(k string) bool {
+					return strings.Contains(k, cur+".Begin") && strings.Count(k, "L[") == 1
+				}
 				switch {
-				case (bo.Op == token.GTR || bo.Op == token.GEQ) && left(kx) && right(ky):
-					yes = 0
-				case (bo.Op == token.LSS || bo.Op == token.LEQ) && right(kx) && left(ky):
-					yes = 0
-				case (bo.Op == token.LSS || bo.Op == token.LEQ) && left(kx) && right(ky):
-					yes = 1
-				case (bo.Op == token.GTR || bo.Op == token.GEQ) && right(kx) && left(ky):
-					yes = 1
+				case bo.Op == token.GEQ && isAcc(kx) && isCur(ky), bo.Op == token.LEQ && isCur(kx) && isAcc(ky):
+					testBlk, mergeEdge, why = b, 0, ""
+				case bo.Op == token.LSS && isAcc(kx) && isCur(ky), bo.Op == token.GTR && isCur(kx) && isAcc(ky):
+					testBlk, mergeEdge, why = b, 1, ""
+				default:
+					why = fmt.Sprintf("the merge test is %s %s %s: it must compare the accumulated chunk's End (%s.End) with the current chunk's Begin (%s.Begin) and merge when End ≥ Begin – with the End of another element chunks that the accumulated one already covers are kept as separate chunks (or chunks that are apart are merged)", kx, bo.Op, ky, acc, cur)
 				}
-				if yes >= 0 && dominatedByEdge(fn, b, yes, st.Block()) {
-					guarded = true
+				if testBlk != nil {
+					break
 				}
 			}
-			if !guarded {
-				why = "the End is overwritten without the test 'left.End > right.End': a right chunk that reaches further than the left one is cut back"
+			r.Check(why == "", rule, key+"#test", c.Pos(fn.Pos()), form+" form: merge iff "+acc+".End ≥ "+cur+".Begin", why)
+		}
+		inMerge := func(b *ssa.BasicBlock) bool {
+			return testBlk != nil && dominatedByEdge(fn, testBlk, mergeEdge, b)
+		}
+		inKeep := func(b *ssa.BasicBlock) bool {
+			return testBlk != nil && dominatedByEdge(fn, testBlk, 1-mergeEdge, b)
+		}
+		var beginSt, endSt, other []roleStore
+		for _, s := range stores {
+			switch {
+			case strings.HasSuffix(s.addr, "].Begin"):
+				beginSt = append(beginSt, s)
+			case strings.HasSuffix(s.addr, "].End"):
+				endSt = append(endSt, s)
+			default:
+				other = append(other, s)
 			}
 		}
-		if len(endSt) == 0 {
-			why = "the merged chunk never takes the left chunk's End: a left chunk that encloses the right one (nested chunks, after Squash/Compressor on bins) is truncated to the right chunk's End and the records in its tail are lost"
+		show := func(ss []roleStore) string {
+			var out []string
+			for _, s := range ss {
+				out = append(out, s.addr+" = "+s.val)
+			}
+			return "[" + strings.Join(out, "; ") + "]"
 		}
-		r.Check(why == "", rule, key+"#end-max", c.Pos(fn.Pos()), "merged.End = max(left.End, right.End)", why)
-		// (c) exactly the left element is spliced out, in the merge branch, and the index steps back
+		if form == "splice" {
+			// (a) Begin of the survivor = Begin of the accumulated element
+			r.Instance(rule, 1)
+			why := ""
+			if len(beginSt) != 1 || beginSt[0].addr != "L[i].Begin" || beginSt[0].val != "L[(i-1)].Begin" || !inMerge(beginSt[0].ins.Block()) {
+				why = fmt.Sprintf("assignments of a chunk's Begin: %s (want exactly, in the merge branch: the right chunk takes the left chunk's Begin)", show(beginSt))
+			}
+			r.Check(why == "", rule, key+"#begin", c.Pos(fn.Pos()), "merged.Begin = left.Begin", why+": positions at the start of the left chunk are lost (or another chunk is altered)")
+			// (b) End of the survivor = the larger End
+			r.Instance(rule, 1)
+			why = ""
+			if len(endSt) == 0 {
+				why = "the merged chunk never takes the left chunk's End: a left chunk that encloses the right one (nested chunks) is truncated to the right chunk's End and the records in its tail are lost"
+			} else if len(endSt) != 1 || endSt[0].addr != "L[i].End" || endSt[0].val != "L[(i-1)].End" || !inMerge(endSt[0].ins.Block()) {
+				why = fmt.Sprintf("assignments of a chunk's End: %s (want exactly, in the merge branch: the right chunk takes the left chunk's End when that is larger)", show(endSt))
+			} else if !m.guardedBy(endSt[0].ins.Block(), func(k string) bool { return k == "v(L[(i-1)].End)" }, func(k string) bool { return k == "v(L[i].End)" }, true) {
+				why = "the End is overwritten without the test 'left.End > right.End' on whole virtual offsets: a right chunk that reaches further than the left one is cut back (or a left chunk ending later in the same block is cut)"
+			}
+			r.Check(why == "", rule, key+"#end-max", c.Pos(fn.Pos()), "merged.End = max(left.End, right.End)", why)
+			// (c) exactly the left element is spliced out, after the update, and the cursor steps back
+			r.Instance(rule, 1)
+			why = ""
+			spliceKey := "none"
+			if splice != nil {
+				cc, _ := isBuiltinCall(splice, "append")
+				spliceKey = "append(" + m.key(cc.Args[0]) + "," + m.key(cc.Args[1]) + ")"
+			}
+			if spliceKey != "append(L[:(i-1)],L[i:])" {
+				got := spliceKey
+				why = "the splice is " + got + ", want append(L[:i-1], L[i:]...): exactly the left element goes"
+			} else if !inMerge(splice.Block()) || (len(beginSt) == 1 && !instrDominates(beginSt[0].ins, splice)) {
+				why = "the splice is not in the merge branch after the survivor was updated"
+			} else {
+				back := false
+				for _, e := range phiClosure(m.idx) {
+					if bo, ok := e.(*ssa.BinOp); ok && bo.Op == token.SUB && m.key(bo) == "(i-1)" && inMerge(bo.Block()) {
+						back = true
+					}
+				}
+				if !back {
+					why = "after the splice the cursor does not step back: the survivor is not compared with its new right neighbour (runs of three or more mergeable chunks stay apart)"
+				}
+			}
+			if len(other) > 0 {
+				why += " other writes to the chunk list: " + show(other)
+			}
+			r.Check(why == "", rule, key+"#splice", c.Pos(fn.Pos()), "the left element, and only it, is removed after the survivor was updated; the cursor steps back", why)
+			continue
+		}
+		if form != "accumulate" {
+			continue
+		}
+		// accumulate form
+		// (a) the accumulated Begin is never written; the slot store copies the current element
+		r.Instance(rule, 1)
+		why := ""
+		if len(beginSt) != 0 {
+			why = "a chunk's Begin is assigned: " + show(beginSt) + " (the accumulated chunk keeps its Begin; the list is sorted by Begin)"
+		}
+		r.Check(why == "", rule, key+"#begin", c.Pos(fn.Pos()), "the accumulated chunk keeps its Begin", why)
+		// (b) acc.End = max
 		r.Instance(rule, 1)
 		why = ""
-		var splice *ssa.Call
-		allInstrs(fn, func(ins ssa.Instruction) {
-			if call, ok := ins.(*ssa.Call); ok {
-				if _, isApp := isBuiltinCall(call, "append"); isApp && symKey(call) == "append(phi:chunks[:(phi:c-1)],phi:chunks[phi:c:])" {
-					splice = call
-				}
+		if len(endSt) == 0 {
+			why = "the accumulated chunk never takes the current chunk's End: a current chunk that reaches further is cut off"
+		} else if len(endSt) != 1 || endSt[0].addr != "L[n].End" || endSt[0].val != "L[i].End" || !inMerge(endSt[0].ins.Block()) {
+			why = "assignments of a chunk's End: " + show(endSt) + " (want exactly, in the merge branch: L[n].End = L[i].End when that is larger)"
+		} else if !m.guardedBy(endSt[0].ins.Block(), func(k string) bool { return k == "v(L[i].End)" }, func(k string) bool { return k == "v(L[n].End)" }, true) {
+			why = "the accumulated End is overwritten without the test 'current.End > accumulated.End' on whole virtual offsets: an enclosing accumulated chunk is cut back"
+		}
+		r.Check(why == "", rule, key+"#end-max", c.Pos(fn.Pos()), "accumulated.End = max(accumulated.End, current.End)", why)
+		// (c) keep branch: n steps by one and the slot takes the current element; nothing else
+		r.Instance(rule, 1)
+		why = ""
+		okSlot := false
+		var rest []roleStore
+		for _, s := range other {
+			if s.addr == "L[(n+1)]" && s.val == "L[i]" && inKeep(s.ins.Block()) {
+				okSlot = true
+			} else {
+				rest = append(rest, s)
 			}
-		})
-		if splice == nil {
-			why = "no splice append(chunks[:c-1], chunks[c:]...) found"
-		} else if len(beginSt) == 1 && (!instrDominates(beginSt[0].Ins, splice) || beginSt[0].Ins.Block() != splice.Block() && !beginSt[0].Ins.Block().Dominates(splice.Block())) {
-			why = "the splice is not in the merge branch after the survivor was updated"
 		}
-		if len(other) > 0 {
-			why += fmt.Sprintf(" other writes to the chunk list: %v", other)
+		if !okSlot {
+			why = "no store L[n+1] = L[i] in the keep branch: a chunk that is apart from the accumulated one is dropped;"
 		}
-		r.Check(why == "", rule, key+"#splice", c.Pos(fn.Pos()), "the left element, and only it, is removed after the survivor was updated", why)
+		if len(rest) > 0 {
+			why += " other writes to the chunk list: " + show(rest) + ";"
+		}
+		stepped := false
+		for _, e := range phiClosure(m.w) {
+			if bo, ok := e.(*ssa.BinOp); ok && bo.Op == token.ADD && m.key(bo) == "(n+1)" && inKeep(bo.Block()) {
+				stepped = true
+			}
+			if bo, ok := e.(*ssa.BinOp); ok && m.key(bo) != "(n+1)" {
+				why += " the write index also becomes " + m.key(bo) + ";"
+			}
+		}
+		if !stepped {
+			why += " the write index does not advance in the keep branch;"
+		}
+		r.Check(why == "", rule, key+"#splice", c.Pos(fn.Pos()), "keep branch: n++ and L[n] = current; result L[:n+1]", why)
 	}
 	// squash
 	{
 		fn := c.Func("bgzf/index", "squash")
-		effs := effectsOf(fn)
+		m := newMergeRoles(fn)
 		r.Instance(rule, 1)
 		why := ""
-		if hasEff(effs, "store", "&local:slicelit[0].Begin", "chunks[0].Begin") == nil {
-			why += " the result's Begin is not chunks[0].Begin;"
-		}
-		if hasEff(effs, "store", "&local:slicelit[0].End", "phi:right") == nil {
-			why += " the result's End is not the accumulated End;"
-		}
-		// right: running maximum
-		var right *ssa.Phi
+		var beginVal, endVal ssa.Value
 		allInstrs(fn, func(ins ssa.Instruction) {
-			if p, ok := ins.(*ssa.Phi); ok && p.Comment == "right" && right == nil {
-				right = p
+			st, ok := ins.(*ssa.Store)
+			if !ok {
+				return
+			}
+			fa, ok := st.Addr.(*ssa.FieldAddr)
+			if !ok {
+				return
+			}
+			if ia, ok := fa.X.(*ssa.IndexAddr); ok {
+				if al, ok := ia.X.(*ssa.Alloc); ok && strings.Contains(al.Comment, "lit") {
+					switch fieldVarOfAddr(fa).Name() {
+					case "Begin":
+						beginVal = st.Val
+					case "End":
+						endVal = st.Val
+					}
+				}
 			}
 		})
-		if right == nil {
-			why += " accumulator 'right' not found;"
+		if beginVal == nil || m.key(beginVal) != "L[0].Begin" {
+			why += " the result's Begin is not the first chunk's Begin;"
+		}
+		acc, _ := endVal.(*ssa.Phi)
+		if endVal == nil || acc == nil {
+			why += " the result's End is not an accumulated value;"
 		} else {
-			// every phi of the accumulator: edges are the initial chunks[0].End, the accumulator itself, or an element's End under 'element.End > right'
-			seen := map[*ssa.Phi]bool{}
-			var walk func(p *ssa.Phi)
-			walk = func(p *ssa.Phi) {
-				if seen[p] {
+			inAcc := map[*ssa.Phi]bool{}
+			var collect func(p *ssa.Phi)
+			collect = func(p *ssa.Phi) {
+				if inAcc[p] {
 					return
 				}
-				seen[p] = true
-				for i, e := range p.Edges {
-					switch x := e.(type) {
-					case *ssa.Phi:
-						if x.Comment == "right" {
-							walk(x)
-							continue
+				inAcc[p] = true
+				for _, e := range p.Edges {
+					if q, ok := e.(*ssa.Phi); ok {
+						collect(q)
+					}
+				}
+			}
+			collect(acc)
+			isAccKey := func(v ssa.Value) bool {
+				if call, ok := v.(*ssa.Call); ok {
+					if g := staticCallee(&call.Call); g != nil && isVOffsetFunc(g) {
+						if p, ok := call.Call.Args[0].(*ssa.Phi); ok {
+							return inAcc[p]
 						}
 					}
-					k := symKey(e)
+				}
+				return false
+			}
+			for p := range inAcc {
+				for i, e := range p.Edges {
+					if q, ok := e.(*ssa.Phi); ok && inAcc[q] {
+						continue
+					}
+					k := m.key(e)
 					switch {
-					case k == "chunks[0].End":
+					case k == "L[0].End":
 					case strings.HasSuffix(k, ".End"):
 						pred := p.Block().Preds[i]
 						ok := false
@@ -169,10 +585,17 @@ func ruleChunkMergeStep(c *Ctx, r *Rep, tier string) {
 								continue
 							}
 							bo, isBo := iff.Cond.(*ssa.BinOp)
-							if !isBo || (bo.Op != token.GTR && bo.Op != token.GEQ) {
+							if !isBo {
 								continue
 							}
-							if symKey(bo.X) == "vOffset("+k+")" && strings.HasPrefix(symKey(bo.Y), "vOffset(phi:right") && (dominatedByEdge(fn, b, 0, pred) || b == pred && pred.Succs[0] == p.Block()) {
+							yes := -1
+							switch {
+							case (bo.Op == token.GTR || bo.Op == token.GEQ) && m.key(bo.X) == "v("+k+")" && isAccKey(bo.Y):
+								yes = 0
+							case (bo.Op == token.LSS || bo.Op == token.LEQ) && isAccKey(bo.X) && m.key(bo.Y) == "v("+k+")":
+								yes = 0
+							}
+							if yes >= 0 && (dominatedByEdge(fn, b, yes, pred) || b == pred && pred.Succs[yes] == p.Block()) {
 								ok = true
 							}
 						}
@@ -184,29 +607,62 @@ func ruleChunkMergeStep(c *Ctx, r *Rep, tier string) {
 					}
 				}
 			}
-			walk(right)
 		}
-		r.Check(why == "", rule, "bgzf/index.squash#span", c.Pos(fn.Pos()), "{chunks[0].Begin, running maximum of End}", why)
+		r.Check(why == "", rule, "bgzf/index.squash#span", c.Pos(fn.Pos()), "{first Begin, running maximum of End}", why)
 	}
 	// identity
 	{
 		fn := c.Func("bgzf/index", "identity")
 		r.Instance(rule, 1)
 		sr := symExec(fn, map[string]int64{})
+		p0 := ""
+		if len(fn.Params) > 0 {
+			p0 = fn.Params[0].Name()
+		}
 		ok := sr.Undec == "" && len(sr.RetKeys) == 1 && len(sr.Effects) == 0 &&
-			(sr.RetKeys[0] == "chunks" || sr.RetKeys[0] == "chunks[:len(chunks)]" || sr.RetKeys[0] == "chunks[:]")
+			(sr.RetKeys[0] == p0 || sr.RetKeys[0] == p0+"[:len("+p0+")]" || sr.RetKeys[0] == p0+"[:]")
 		r.Check(ok, rule, "bgzf/index.identity#same", c.Pos(fn.Pos()), "returns its argument untouched", "identity does not return its argument unchanged")
 	}
+}
+
+// phiClosure: the values that flow into phi p (through phis).
+func phiClosure(p *ssa.Phi) []ssa.Value {
+	var out []ssa.Value
+	seen := map[*ssa.Phi]bool{}
+	var walk func(q *ssa.Phi)
+	walk = func(q *ssa.Phi) {
+		if q == nil || seen[q] {
+			return
+		}
+		seen[q] = true
+		for _, e := range q.Edges {
+			if r, ok := e.(*ssa.Phi); ok {
+				walk(r)
+				continue
+			}
+			out = append(out, e)
+			if bo, ok := e.(*ssa.BinOp); ok {
+				// i = φ(i, i-1) + 1: the step of a loop goes through its latch phi
+				for _, op := range []ssa.Value{bo.X, bo.Y} {
+					if r, ok := op.(*ssa.Phi); ok {
+						walk(r)
+					}
+				}
+			}
+		}
+	}
+	walk(p)
+	return out
 }
 
 func init() {
 	register(&PropDef{
 		ID: "C17", Title: "Chunk merge strategies never lose coverage", Level: "other",
 		Rules: []RuleDef{
-			{Name: "MERGE-STEP", What: "Adjacent and Compressor: a merge gives the survivor the left Begin and the larger End, removes exactly the left element, writes nothing else; Squash = {first Begin, running maximum of End}; Identity returns its argument", Floor: 8, Run: ruleChunkMergeStep},
+			{Name: "MERGE-STEP", What: "Adjacent and Compressor (splice form or accumulate form, recognised by roles, not names): the merge test compares the accumulated chunk's End with the current Begin; a merge keeps the accumulated Begin and the larger End (compared as whole virtual offsets), removes exactly one element, writes nothing else; Squash = {first Begin, running maximum of End}; Identity returns its argument", Floor: 10, Run: ruleChunkMergeStep},
 			{Name: "SORTED-PRE", What: "every application of a merge strategy is to a chunk list sorted by begin offset", Floor: 5, Run: ruleSortedPre},
 		},
-		Explanation: "Only the structural necessary conditions: the shape of a merge step (added after a second-round seed for C04 removed the 'larger End' test from Adjacent and nothing reported it), Squash's span, Identity, and the callers' sortedness precondition. A merge that does not keep the larger End loses the tail of an enclosing chunk; one that does not take the left Begin loses its head.",
-		NotDecided:  "everything value-level in the statement: that the in-place loops with their aliasing append produce a sorted list covering exactly/at least the input for every input, pairwise separation, the Compressor threshold, idempotence. An abstract interpreter with a slice memory model would be needed; none was built.",
+		Explanation: "Only the structural necessary conditions: the shape of a merge step (added after a second-round seed for C04 removed the 'larger End' test from Adjacent and nothing reported it), Squash's span, Identity, and the callers' sortedness precondition. A merge that does not keep the larger End loses the tail of an enclosing chunk; one that does not take the left Begin loses its head; a test against another element's End leaves covered chunks apart.",
+		NotDecided:  "everything value-level in the statement: that the loops with their aliasing append produce a sorted list covering exactly/at least the input for every input, the Compressor threshold arithmetic, idempotence as such. An abstract interpreter with a slice memory model would be needed; none was built. A merge loop written in a third way (range loop, recursion, a new slice) is reported as not understood.",
 	})
 }
